@@ -19,7 +19,8 @@ ID = "C04"
 GO_PKG = "./api/handler"
 PKGS = {"parser": ("./api/token", "^TestVerifDriver$"), "jwt": ("./api/handler", "^TestVerifDriver$"),
         "sig": ("./api/handler", "^TestVerifDriver$"), "rpc": ("./rpc/internal/auth", "^TestVerifDriver$"),
-        "grp": ("./api", "^TestVerifDriverC04$"), "ejwt": ("./api", "^TestVerifDriverC04$"), "rpci": ("./rpc/internal/serverinterceptors", "^TestVerifDriverC04$")}
+        "grp": ("./api", "^TestVerifDriverC04$"), "ejwt": ("./api", "^TestVerifDriverC04$"),
+        "rpcs": ("./rpc/internal", "^TestVerifDriverC04$"), "rpci": ("./rpc/internal/serverinterceptors", "^TestVerifDriverC04$")}
 
 _A = "api/handler/authhandler.go"
 _T = "api/token/tokenparser.go"
@@ -31,6 +32,9 @@ _RV = "rpc/internal/auth/vars.go"
 _I = "rpc/internal/serverinterceptors/authinterceptor.go"
 _Q = "api/httpx/requests.go"
 _E = "api/engine.go"
+_C = "api/handler/cryptohandler.go"
+_AC = "rpc/internal/codes/accept.go"
+_BI = "rpc/internal/serverinterceptors/breakerinterceptor.go"
 
 
 def _gen_spec():
@@ -58,6 +62,9 @@ def _gen_spec():
                        (_E, "engine.bindFeaturedRoutes", "bind_featured_calls"), (_E, "engine.bindRoutes", "bind_routes_calls"),
                        (_E, "engine.signatureVerifier", "signature_verifier_calls")]:
         items.append({"kind": "calls", "file": f, "func": fn, "as": as_})
+    items.append({"kind": "const", "file": _C, "name": "maxBytes"})
+    items.append({"kind": "cases", "file": _AC, "func": "Acceptable", "as": "acceptable_cases"})
+    items.append({"kind": "calls", "file": _BI, "func": "UnaryBreakerInterceptor", "as": "unary_breaker_calls"})
     items.append({"kind": "cases", "file": _H, "func": "ContentSecurityHandler", "as": "csh_methods"})
     items.append({"kind": "cases", "file": _A, "func": "Authorize", "as": "skipped_claims"})
     items.append({"kind": "func", "file": _S, "name": "ContentSecurityHeader.Encrypted", "as": "encrypted"})
@@ -75,7 +82,7 @@ RULE = ("mix of 4 case kinds: parser histories (22%: 1-60 requests through one t
         "{s1,s2,s3}, algs HS256/384/512/none/RS256-junk, exp/nbf/iat at +-1h and at +40..250 s with the jwt clock (jwt.TimeFunc) moving 20..3000 s between requests, truncated/flipped/garbage tokens, "
         "Bearer/bearer/absent schemes), signed requests (43%: correctly signed + every single-field tampering + key/secret/"
         "fingerprint/header defects + timestamps at tol-1,tol,tol+1,+-5 and extreme/non-numeric values, strict and non-strict, "
-        "all methods, X-Request-Uri, encrypted bodies; body framing in {declared Content-Length, unknown length -1 via an opaque reader, chunked through a real httptest.Server, declared length through a real server, empty body} x {correct, body tampered, signed-for-empty-body with a body sent}), route groups on one engine (8%: 2-3 WithSignature groups with their own fingerprint->key tables over 3 RSA keys generated at run time, every (fp,key) pair in use sent to every group), JWT route groups built by the engine from api.WithJwt/WithJwtTransition with previous secrets of every length 0..33 and current secrets around the 8-byte limit (5.5%), RPC floods (2%: 1500-4000 calls for apps without stored token, then right/forged tokens on 5-9 fresh known apps), RPC interceptor histories (7%: Unary/Stream interceptors with FullMethod names incl. health/reflection/empty), RPC authenticator histories (7%: miniredis hash contents x metadata "
+        "all methods, X-Request-Uri, encrypted bodies; body framing in {declared Content-Length, unknown length -1 via an opaque reader, chunked through a real httptest.Server, declared length through a real server, empty body} x {correct, body tampered, signed-for-empty-body with a body sent}), route groups on one engine (8%: 2-3 WithSignature groups with their own fingerprint->key tables over 3 RSA keys generated at run time, every (fp,key) pair in use sent to every group), JWT route groups built by the engine from api.WithJwt/WithJwtTransition with previous secrets of every length 0..33 and current secrets around the 8-byte limit (5.5%), real rpc server bursts (1%: 300-800 wrong/missing-token calls on one method then correct pairs), long client keys (35% of signed requests: secret plaintext of 113..349 bytes = 1, exactly 117, 2 and 3 RSA blocks), 3 fixed encrypted-body size cases in the corpus (wire body 1048575 / 1048576 / 1048577 bytes), RPC floods (1%: 1500-4000 calls for apps without stored token, then right/forged tokens on 5-9 fresh known apps), RPC interceptor histories (7%: Unary/Stream interceptors with FullMethod names incl. health/reflection/empty), RPC authenticator histories (7%: miniredis hash contents x metadata "
         "shapes x strict x outages); the thorough tier adds the original and all 6 single-field/key tamperings of 200 base requests. non-trivial = a history with both an accepted and a refused request / a signed request "
         "on a guarded method with a parsable header / an RPC history with both outcomes; distinct = distinct canonical case JSON")
 TRUSTED = ["golang-jwt/jwt v4 (signature + time-claim verdict per (Authorization header, secret) tabulated by the driver by "
@@ -192,6 +199,10 @@ def gen_jwt(rng):
 KEYS = [base64.b64encode(b"q4t7w!z%C*F-JaNdRgUjXn2r5u8x/A?D").decode(),
         base64.b64encode(b"0123456789abcdef").decode(),
         base64.b64encode(b"another-hmac-key-of-24-b").decode()]
+# long client keys: the secret plaintext "key=<b64>; time=<10 digits>; type=0" is 29 + len(b64) bytes; one PKCS#1 v1.5 block
+# of the 1024-bit test key holds 117: 66 raw bytes -> exactly 117 (block boundary), 69 -> 121 (2 blocks, 4 bytes in the second),
+# 96 -> 157 (2 blocks), 160 -> 245 (3 blocks), 240 -> 349 (3 blocks)
+LONG_KEYS = [base64.b64encode(bytes((7 * i + n) % 251 for i in range(n))).decode() for n in (66, 69, 96, 160, 240, 63)]
 H_OK = "fingerprint={FP}; secret={SECRET}; signature={SIG}"
 PATHS = ["/", "/a", "/a/b", "/users/42/items", "/a%0Ab", "/sp%20ace", "/a/b/"]
 QUERIES = ["", "x=1", "a=1&b=2", "q=%0A", "k=v&k=w", "z"]
@@ -204,7 +215,7 @@ def _sig_base(rng):
     query = rng.choice(QUERIES)
     body = rng.choice(BODIES)
     tol = rng.choice([30, 100, 600, 10])
-    key = rng.choice(KEYS)
+    key = rng.choice(KEYS) if rng.random() < 0.65 else rng.choice(LONG_KEYS)
     fp = rng.choice(["fp-1", "fp-2"])
     c = {"kind": "sig", "strict": rng.random() < 0.7, "tol": tol, "decryptors": ["fp-1", "fp-2"],
          "method": method, "target": "http://localhost" + path + ("?" + query if query else ""), "body": body,
@@ -212,7 +223,7 @@ def _sig_base(rng):
          "plain": "key=%s; time={TS}; type=0" % key, "tsoff": rng.choice([0, 0, 1, -1, 3, -4]), "tsraw": "", "corrupt": False,
          "keyb64": key, "signkey": key, "signts": "{TS}", "signmeth": method,
          "signpath": _unescape(path), "signquery": query, "signbody": "{SENT}", "sigraw": None,
-         "b64cands": [""], "secretcands": [], "framing": _framing(rng),
+         "b64cands": [""], "secretcands": [], "framing": _framing(rng), "bodygen": 0, "bodynl": 0,
          # generator's description of the request, for the Spec
          "intent": {"wellformed": True, "fp": fp, "type": 0, "variant": "valid"}}
     r = rng.random()
@@ -248,6 +259,10 @@ SIG_VARIANTS = ["valid", "valid", "valid", "t-ts", "t-method", "t-path", "t-quer
 def gen_sig(rng, variant=None):
     c = _sig_base(rng)
     v = variant or rng.choice(SIG_VARIANTS)
+    if v == "valid" and rng.random() < 0.4:
+        k = rng.choice(LONG_KEYS)
+        c["plain"] = c["plain"].replace(c["keyb64"], k)
+        c["keyb64"] = c["signkey"] = k
     it = c["intent"]
     it["variant"] = v
     tol = c["tol"]
@@ -272,7 +287,7 @@ def gen_sig(rng, variant=None):
         # declared 0 / no body at all, correctly signed
         c["body"] = ""
     elif v == "t-key":
-        c["signkey"] = rng.choice([k for k in KEYS if k != c["keyb64"]])
+        c["signkey"] = rng.choice([k for k in KEYS + LONG_KEYS if k != c["keyb64"]])
     elif v == "routed-path":
         # X-Request-Uri present: the routed path differs from the signed one, still accepted (recorded note)
         c["xuri"] = "/signed/path?s=1"
@@ -505,6 +520,30 @@ def gen_rpc_flood(rng):
     return {"kind": "rpc", "strict": rng.random() < 0.5, "ops": ops}
 
 
+def gen_rpcs(rng):
+    """a real rpc server (built-in chain with the breaker in front of the authorize interceptors): an app is hammered with
+    wrong / missing tokens on one method (several hundred Unauthenticated answers inside the breaker window), then correct
+    app/token pairs call the same methods"""
+    known = ["svc-%d" % i for i in range(rng.choice([4, 6]))]
+    ops = [{"op": "set", "app": a, "token": "tok-" + a} for a in known]
+    ops.append({"op": "call", "mode": "unary", "nomd": False, "apps": [known[0]], "tokens": ["tok-" + known[0]]})
+    modes = rng.choice([["unary"], ["stream"], ["unary", "stream"]])
+    for mode in modes:
+        kind = rng.choice(["wrong", "wrong", "nomd", "empty"])
+        n = rng.choice([300, 500, 800])
+        if kind == "wrong":
+            ops.append({"op": "burst", "mode": mode, "nomd": False, "apps": [rng.choice(known)], "tokens": ["forged"], "n": n})
+        elif kind == "nomd":
+            ops.append({"op": "burst", "mode": mode, "nomd": True, "n": n})
+        else:
+            ops.append({"op": "burst", "mode": mode, "nomd": False, "apps": [rng.choice(known)], "tokens": [""], "n": n})
+    for a in known:
+        for mode in ("unary", "stream"):
+            ops.append({"op": "call", "mode": mode, "nomd": False, "apps": [a], "tokens": ["tok-" + a]})
+    ops.append({"op": "call", "mode": rng.choice(modes), "nomd": False, "apps": [known[1]], "tokens": ["forged"]})
+    return {"kind": "rpcs", "strict": rng.random() < 0.5, "ops": ops}
+
+
 def generate(rng, tier, n):
     cases = []
     if tier == "thorough":
@@ -536,7 +575,7 @@ def generate(rng, tier, n):
         elif r < 0.875:
             cases.append(gen_ejwt(rng))
         elif r < 0.895:
-            cases.append(gen_rpc_flood(rng))
+            cases.append(gen_rpc_flood(rng) if rng.random() < 0.5 else gen_rpcs(rng))
         elif r < 0.93:
             cases.append(gen_rpc(rng))
         else:
@@ -565,6 +604,15 @@ def search(rng, problems):
         p = gen_parser(rng)
         p["secret"], p["prev"] = SECRETS[0], SECRETS[1]
         out.append(p)
+    for _ in range(6):
+        out.append(gen_rpcs(rng))
+    for k in LONG_KEYS:
+        for v in ("valid", "valid", "t-body"):
+            c = gen_sig(rng, v)
+            c["strict"] = True
+            c["plain"] = c["plain"].replace(c["keyb64"], k)
+            c["keyb64"] = c["signkey"] = k
+            out.append(c)
     for _ in range(20):
         out.append(gen_ejwt(rng))
     for strict in (False, True, False, True):
@@ -581,6 +629,7 @@ def search(rng, problems):
         c["tokens"] = [{"alg": "HS256", "secret": SECRETS[0], "claims": {"uid": 1}, "exp": 100, "nbf": rng.choice([None, 40]),
                         "iat": None, "mangle": "", "raw": "", "cut": 0}]
         c["reqs"] = [{"tok": 0, "scheme": "Bearer ", "advance": 0, "jadv": j} for j in [0, 0, 30, 30, 30, 30, 0, 3000]]
+        c["probe"] = sorted(REGISTERED + ["uid"])
         out.append(c)
     for strict in (False, True):
         out.append({"kind": "rpci", "strict": strict, "ops": [
@@ -706,7 +755,7 @@ def sig_intent(case, obs):
 def enc_sig(case, obs):
     req = "(mkr %s %s %s %s %s %s %s)" % (B(obs["method"]), B(obs["path"]), B(obs["query"]), B(case["xuri"]),
                                           B("" if case["noheader"] else obs["header"]), B(obs["sentbody"]), cZ(obs["clen"]))
-    rsa = clist([cpair(B(r["secret"]), optB(r["res"])) for r in obs["rsa"]])
+    rsa = clist([cpair(cbytes(base64.b64decode(r["block"])), optB(r["res"])) for r in obs["rsa"]])
     b64 = clist([cpair(B(r["text"]), optB(r["res"])) for r in obs["b64"]])
     mac = clist([cpair(cpair(cbytes(base64.b64decode(r["key"])), B(r["content"])), B(r["mac"])) for r in obs["mac"]])
     sha = clist([cpair(B(r["body"]), B(r["hex"])) for r in obs["sha"]])
@@ -716,10 +765,10 @@ def enc_sig(case, obs):
     q = "(mkq %s %s %s %s %s %s %s %s %s)" % (cbool(decrypts), cbytes(key), B(ts_text), copt(None if ts is None else cZ(ts)),
                                              B(obs["sig"]), B(obs["method"]), B(ep), B(eq), B(obs["sentbody"]))
     hdr = {"": 0, "wrong-time": 1, "invalid": 2}.get(obs["sighdr"], 9)
-    return "CSig (mksc %s %s %s %s %s %s %s %s %s %s %s %s %s %s %s %s %s %s %s)" % (
+    return "CSig (mksc %s %s %s %s %s %s %s %s %s %s %s %s %s %s %s %s %s %s %s %s %s)" % (
         cbool(case["strict"]), cZ(case["tol"]), cZ(obs["now0"]), cZ(obs["now1"]), clist([B(d) for d in case["decryptors"]]),
-        req, rsa, b64, mac, sha, url, {"ok": "DecOk", "err": "DecErr", "panic": "DecPanic"}[obs["decbody"]], q, cbool(enc), cbool(skip),
-        cZ(obs["status"]), cbool(obs["ran"]), cN(hdr), cbool(obs["panic"]))
+        req, rsa, "%d%%nat" % obs["rsak"], b64, mac, sha, url, {"ok": "DecOk", "err": "DecErr", "panic": "DecPanic"}[obs["decbody"]], q, cbool(enc), cbool(skip),
+        cZ(obs["status"]), cbool(obs["ran"]), cN(hdr), cbool(obs["panic"]), cN(obs["seen"]))
 
 
 def rpc_steps(case):
@@ -790,14 +839,19 @@ def enc_rpcf(case, obs):
             st = clist([cpair(cN(sid(a)), cN(sid(t))) for a, t in sorted(store.items())])
             ops.append("(OFlood %s %s %s %s %s)" % (cN(op["n"]), cN(base), cN(sid(op["token"])), st, cZ(code)))
             base += op["n"] + 10
-        elif k == "call":
+        elif k in ("call", "burst"):
             row = next(rows)
             st = clist([cpair(cN(sid(a)), cN(sid(t))) for a, t in sorted(store.items())])
             if op.get("nomd"):
                 md = "None"
             else:
                 md = "(Some %s)" % cpair(clist([cN(sid(a)) for a in (op.get("apps") or [])]), clist([cN(sid(t)) for t in (op.get("tokens") or [])]))
-            ops.append("(OCall (mkrs %s %s %s %s))" % (cbool(down), st, md, cZ(row["code"])))
+            if k == "call":
+                ops.append("(OCall (mkrs %s %s %s %s))" % (cbool(down), st, md, cZ(row["code"])))
+            else:
+                hist = row["burst"]
+                code = int(next(iter(hist))) if len(hist) == 1 else -2
+                ops.append("(OBurst %s (mkrs %s %s %s %s))" % (cN(op["n"]), cbool(down), st, md, cZ(code)))
     return "CRpcF (mkrf %s %s)" % (cbool(case["strict"]), clist(ops))
 
 
@@ -836,7 +890,7 @@ def enc_grp(case, obs):
         q = "(mkq true %s %s %s %s %s %s %s %s)" % (cbytes(key), B(o["ts"]), copt(None if ts is None else cZ(ts)), B(o["sig"]),
                                                    B(o["method"]), B(o["path"]), B(o["query"]), B(rq["body"]))
         hdr = {"": 0, "wrong-time": 1, "invalid": 2}.get(o["sighdr"], 9)
-        sig = "(mksc false 0%%Z %s %s [] %s [] %s %s %s None DecErr %s false false %s %s %s %s)" % (
+        sig = "(mksc false 0%%Z %s %s [] %s [] 0%%nat %s %s %s None DecErr %s false false %s %s %s %s 0%%N)" % (
             cZ(o["now0"]), cZ(o["now1"]), req, b64, mac, sha, q, cZ(o["status"]), cbool(o["ran"]), cN(hdr), cbool(o["panic"]))
         reqs.append("(mkgr %s %s %s %s %s)" % ("%d%%nat" % rq["group"], rsa, B(rq["fp"]), cN(rq["enckey"]), sig))
     return "CGrp (mkgc %s %s)" % (groups, clist(reqs))
@@ -870,7 +924,7 @@ PANIC_TERM = "CRpc (mkrc true [mkrs false [] None (0)%Z])"
 def encode(case, obs):
     if "driver_panic" in obs:
         return PANIC_TERM
-    return {"parser": enc_parser, "jwt": enc_jwt, "sig": enc_sig, "rpc": enc_rpc, "grp": enc_grp, "rpci": enc_rpci, "ejwt": enc_ejwt}[case["kind"]](case, obs)
+    return {"parser": enc_parser, "jwt": enc_jwt, "sig": enc_sig, "rpc": enc_rpc, "grp": enc_grp, "rpci": enc_rpci, "ejwt": enc_ejwt, "rpcs": enc_rpcf}[case["kind"]](case, obs)
 
 
 # ------------------------------------------------------------------------------------------- evidence
@@ -888,6 +942,8 @@ def nontrivial(case, obs):
         return case["method"] in ("GET", "POST", "PUT", "DELETE") and not case["noheader"] and case["intent"]["wellformed"]
     if k in ("grp", "ejwt"):
         return len({r["ran"] for r in obs["rows"]}) == 2
+    if k == "rpcs":
+        return True
     codes = {r["code"] == 0 for r in obs["rows"]}
     return len(codes) == 2
 
@@ -938,6 +994,13 @@ def bucket(case, obs):
             out.append("sig:body:%s:%s:%s" % (case["intent"]["variant"], case.get("framing", "declared"), obs["status"]))
         if obs["panic"]:
             out.append("sig:GATE-PANIC")
+        nblocks = len(obs["rsa"])
+        plen = len(obs["plain"])
+        out.append("sig:secret-blocks=%s%s" % (nblocks if nblocks < 3 else "3+", ":exactly-117" if plen == 117 else ""))
+        if nblocks >= 2 and case["intent"]["variant"] == "valid" and case["strict"]:
+            out.append("sig:multi-block-secret:valid:%d" % obs["status"])
+        if case["intent"]["variant"] == "enc-size":
+            out.append("sig:enc-size:wire=%d:%d%s" % (obs["sentlen"], obs["status"], ":decrypted-body" if obs["seen"] == 1 else ""))
         if case["intent"]["type"] == 1 and obs["clen"] < 0 and obs["ran"] and obs["seenbody"] == obs["sentbody"] and obs["sentbody"] != "":
             out.append("note:encrypted-body-of-unknown-length-reaches-handler-undecrypted")
         if obs["now0"] != obs["now1"]:
@@ -969,6 +1032,15 @@ def bucket(case, obs):
                                          "strict" if g["strict"] else "lax", r["status"]))
             if same_fp_other_key and not conf:
                 out.append("grp:fingerprint-configured-here-with-another-key")
+    elif k == "rpcs":
+        out.append("rpcs:" + ("strict" if case["strict"] else "lax"))
+        after = False
+        for op, r in zip([o for o in case["ops"] if o["op"] in ("call", "burst")], obs["rows"]):
+            if op["op"] == "burst":
+                after = True
+                out.append("rpcs:burst:%s:" % op["mode"] + ",".join("%s x%d" % (c, n) for c, n in sorted(r["burst"].items())))
+            elif after:
+                out.append("rpcs:after-burst:%s:code=%d" % (op["mode"], r["code"]))
     else:
         out.append("%s:" % k + ("strict" if case["strict"] else "lax"))
         if k == "rpci":
@@ -1003,6 +1075,10 @@ def explain(case, obs):
         return ("the signature gate PANICKED instead of answering (%s): a correctly signed request announcing type=1 whose body "
                 "base64-decodes to the empty string reaches codec.EcbDecrypt -> pkcs5UnPadding, which indexes src[len(src)-1]; "
                 "expected 400 from cryptohandler (c04_gate_panic_iff: the gate panics only if decryptBody does)" % obs.get("panicval"))
+    if k == "rpcs":
+        return ("through a real rpc server (breaker interceptor in front of the authorize interceptors) a verdict contradicts the RPC decision table: "
+                "after a burst of Unauthenticated answers on a method, calls with a correct app/token on that method must still be accepted "
+                "(c04_rpc_rejections_acceptable, c04_rpc_burst_no_breaker_failures, c04_rpc_table); code 2 = refused by the breaker")
     if k == "ejwt":
         return ("a JWT-protected route group configured through api.WithJwt / api.WithJwtTransition contradicts C04.Exec.ejwt_spec_ok: the handler "
                 "must run iff the token verifies under the group's current secret or under its previous secret, whatever the previous secret's "
